@@ -23,7 +23,7 @@ from fractions import Fraction as F
 import itertools
 
 from ..loader import AnalysisError
-from ..pe import ConfigRejected, Tensor, PyRaise
+from ..pe import ConfigRejected, Tensor, PyRaise, Unsupported
 from .. import quant, oracle
 from ..qir import Fwd, Eval, Env, value_set, mk_app, equal_mod_finite
 from ..nf import NF, show
@@ -542,6 +542,36 @@ def rule_call_is_pure(rep, repo, classes, rule, tier):
                 "computes %s, the first %s" % (cfg, show(Fwd()(o2.term), 160),
                                                show(Fwd()(o1.term), 160)),
                 loc=pe.loc_of(o1.term), instance=cfg)
+      # ... the SAME weight variable with new contents (an optimiser step, a
+      # set_weights) is quantized from its current contents
+      try:
+        from ..pe import Var as _Var
+        from ..qir import simplify_app as _sa
+        pe3, q3 = quant.construct(repo, cls, {k_: _copy.deepcopy(v_)
+                                              for k_, v_ in kw.items()},
+                                  x_shape=(4, 6, 8))
+        var = _Var(("app", "variable", (), (("x",),)), (4, 6, 8))
+        pe3.rand_counter = 0
+        pe3.call(q3, [var], {})
+        pe3.call(pe3.getattr(var, "assign"),
+                 [Tensor(("sym", "w_new"), (4, 6, 8))], {})
+        pe3.rand_counter = 0
+        o_new = pe3.call(q3, [var], {})
+        pe4, q4 = quant.construct(repo, cls, {k_: _copy.deepcopy(v_)
+                                              for k_, v_ in kw.items()},
+                                  x_shape=(4, 6, 8))
+        pe4.rand_counter = 0
+        o_ref = pe4.call(q4, [Tensor(("sym", "w_new"), (4, 6, 8))], {})
+        stale = [ph for ph in ("infer", "train") if not equal_mod_finite(
+            Fwd(ph)(o_new.term), Fwd(ph)(o_ref.term))]
+        rep.check(not stale, rule, unit, "stale-after-variable-update",
+                  "%s: the same weight variable, assigned new contents, is "
+                  "quantized to %s; its current contents give %s" % (
+                      cfg, show(Fwd()(o_new.term), 160),
+                      show(Fwd()(o_ref.term), 160)),
+                  loc=pe.loc_of(o1.term), instance=cfg)
+      except (ConfigRejected, PyRaise, Unsupported):
+        pass
       # ... and a later call on a tensor of another rank is the call a fresh
       # object would make (nothing derived from the first tensor is kept)
       try:
@@ -755,3 +785,12 @@ def run(rep, repo, tier):
   rep.require_instances("R3", 3)
   rep.require_instances("R4", 4)
   rep.require_instances("R5", 25)
+
+  # R20: construction history (shared with C09 R10): every option
+  # alternative of these classes is built and used first in ONE interpreter;
+  # each configuration then computes / prints / rebuilds what it does alone
+  from . import c09 as _c09
+  from .. import qref as _qref
+  if _c09.rule_construction_history(
+      rep, repo, repo.module(quant.QMOD), ('binary', 'ternary', 'stochastic_binary', 'stochastic_ternary'), "R20") < 5:
+    raise AnalysisError("instance-count construction histories")
